@@ -126,7 +126,10 @@ def build(ctx):
                         for _ in range(rng.randint(6, 22)))
             if rng.random() < 0.2:      # degenerate compositions: delta-max exactly 0, uncharged, very short
                 s = rng.choice(['KKKKKKKK', 'RKRKRKRKRKRK', 'DEDEDEDE', 'EKGS', 'KAEAK', 'GSGSGSGS', 'K', 'EK', 'SSSTTTYY',
-                                'EEEEEEGGGG', 'KKKKKKGGGGGGGGGGGGGGGGGGG'])
+                                'EEEEEEGGGG', 'KKKKKKGGGGGGGGGGGGGGGGGGG',
+                                # the sequence's own delta within 10% above / well above the family's delta-max (kappa clamps / D1)
+                                'KGGGGGK', 'EKKEKKE', 'KKEEGEEK', 'EGGGGGEE', 'GEEGEG', 'RSAGTQK', 'DKRDRKE', 'KEEEEK', 'KGGGGK',
+                                'EAAAAE', 'KEEEAK', 'RRDEEEK'])
             sty = [i + 1 for i, c in enumerate(s) if c in 'STY']
             sites = rng.sample(sty, min(len(sty), rng.randint(0, 3)))
             specs.append((s, sites, j == 1 and rng.random() < 0.7))
